@@ -26,8 +26,11 @@ func (i IgnoreErrors) Middleware(h message.HandlerFunc) message.HandlerFunc {
 	return func(msg *message.Message) ([]*message.Message, error) {
 		events, err := h(msg)
 		if err != nil {
-			if _, ok := i.ignoredErrors[errors.Cause(err).Error()]; ok {
-				return events, nil
+			// Cause is nil for an error whose Cause() method returns nil: such an error is not on the list.
+			if cause := errors.Cause(err); cause != nil {
+				if _, ok := i.ignoredErrors[cause.Error()]; ok {
+					return events, nil
+				}
 			}
 
 			return events, err
